@@ -5,9 +5,15 @@ handlers, the engine FIFO, the teardown fence, the cancellable wrapper; every st
 Tie:   tools/tr_tsyncskel.py -> Gen/TsyncSkel.lean (lock extent of connectSync, its single unlock window, the handlers),
        harness/c04_connectsync.cpp: single-threaded lockstep over a scripted FIFO engine + DetSched schedules (1-8 callers, the I/O
        thread as a policy-driven loop, cancel and fence threads) replayed step by step by the Lean acceptor.
-Wall-clock ("timeout + bounded slack") is partial: the model proves a step bound; the harness measures."""
+"In time" is PARTIAL: the model proves a bound on the caller's own steps; that the wait lasts the caller's timeout is TIED, not proved:
+skeleton facts on the wait_for argument and the wrapper's sub-interval arithmetic (decide), a DetSched virtual-time monitor
+(single-caller programs: elapsed virtual time <= timeout + 5 ms, <= timeout + 100 ms + 5 ms under the cancellable wrapper) and a
+real-time monitor on the sequential `connect` op (elapsed <= timeout + 1.5 s). Wall-clock slack is not proved.
+Observation FC04a (not a finding against C04 as stated): the global close callback can fire BEFORE connectSync has returned the id, when the
+PEER closes between onConnect and the caller's wake-up; the id is still handed to the caller (Props: T2_ordered_refuted)."""
 import json, os
-from vlib.core import Ctx, ddmin, VERIF
+FINDING_KEY = "FC04a:gclose-before-ret-ok"
+from vlib.core import Ctx, ddmin, VERIF, load_known_findings
 
 ID = "C04"
 MODULES = ["IoraModel.Props.C04"]
@@ -15,27 +21,35 @@ DETSCHED = os.path.join(VERIF, "harness", "detsched", "detsched.cpp")
 ANCHOR_FILES = ["include/iora/network/transport_impl.hpp", "include/iora/network/detail/engine_base.hpp", "include/iora/network/detail/tcp_engine.hpp"]
 OBLIGATIONS = [
     {"id": "C04_skel", "theorem": "Iora.C04.skeleton_conforms", "kind": "proved",
-     "statement": "connectSync holds syncMutex from before engine->connect into the wait, has exactly one unlock window containing only engine->close, marks abandoned before it; the handlers complete the waiter under the lock (decide over the regenerated skeleton)"},
+     "statement": "genCfg.Good: the model is instantiated from the regenerated skeleton - lock extent of connectSync, one unlock window with only engine->close and abandoned set before it, handlers complete under the lock, wait_for(lk, timeout, done||shuttingDown), wrapper subInterval 100 ms / deadline now+timeout / min(remaining, subInterval), host/port/tls passed unchanged, engine error returned as is (decide)"},
     {"id": "C04_T1", "theorem": "Iora.C04.T1_ok_is_live", "kind": "proved",
      "statement": "every schedule: ret ok sid only for the session this call created, after the onConnect handler delivered it, and never for a session any connectSync issued engine->close for"},
     {"id": "C04_T2_connect", "theorem": "Iora.C04.T2_no_global_connect", "kind": "proved",
      "statement": "every schedule: the global connect callback never fires for a connectSync-created session"},
     {"id": "C04_T2_close", "theorem": "Iora.C04.T2_global_close_only_for_handed_out", "kind": "proved",
-     "statement": "every schedule: a global close for a connectSync-created session implies its completion was delivered and the creating call returns nothing but ok sid (true after the F16 repair)"},
+     "statement": "a global close for a connectSync-created session implies its completion was delivered and the creating call returns nothing but ok sid (NOT: that it had already returned)"},
+    {"id": "C04_T2_ordered", "theorem": "Iora.C04.T2_ordered_refuted", "kind": "observation-refuted",
+     "statement": "REFUTED: 'globalClose sid is logged only after ret ok sid' - witness: complete, deliver, peer close, global close, then the caller wakes and returns ok"},
     {"id": "C04_T3", "theorem": "Iora.C04.T3_timeout_closes", "kind": "proved",
-     "statement": "every Timeout return is preceded by this call's engine->close(sid)"},
+     "statement": "every return of connectSync's OWN timeout exit is preceded by this call's engine->close(sid)"},
     {"id": "C04_T3_fifo", "theorem": "Iora.C04.T3_nothing_left_open", "kind": "proved",
      "statement": "once the engine FIFO is drained, a session for which engine->close was issued is closed (Connect is processed before Close)"},
+    {"id": "C04_T3_nonok", "theorem": "Iora.C04.T3_non_ok_leaves_nothing_open", "kind": "proved",
+     "statement": "every finished attempt that did not return ok sid (timed out, failed, woken by teardown, abandoned by a cancelled/timed-out wrapper): engine->close was issued, or the engine closed the session, or teardown began"},
     {"id": "C04_T4", "theorem": "Iora.C04.T4_register_before_completion", "kind": "proved",
      "statement": "no schedule runs the onConnect critical section of a connectSync-created session before it is registered in pendingConnects"},
     {"id": "C04_T5_wake", "theorem": "Iora.C04.T5_no_lost_wakeup", "kind": "proved",
      "statement": "a caller asleep with its predicate true (completion delivered or fence set) has a notify on its way, in every reachable state"},
     {"id": "C04_T5_bound", "theorem": "Iora.C04.T5_step_bound", "kind": "partial",
-     "statement": "from any state with the mutex free a parked caller that takes its timeout returns within 3 of its own steps (the wall-clock slack of 'timeout + bounded slack' is NOT proved)"},
+     "statement": "from any state with the mutex free a parked caller that takes its timeout returns within 3 of its own steps (that the wait lasts `timeout` is tied by skeleton facts + monitors, wall-clock slack NOT proved)"},
     {"id": "C04_T5_lock", "theorem": "Iora.C04.T5_lock_released", "kind": "proved",
      "statement": "a caller holding syncMutex releases it within 3 of its own steps"},
     {"id": "C04_T5_fence", "theorem": "Iora.C04.T5_fence_rejects", "kind": "proved",
      "statement": "a connectSync that acquires the mutex after the fence returns ShuttingDown without calling the engine"},
+    {"id": "C04_refused", "theorem": "Iora.C04.T_connect_refused", "kind": "proved",
+     "statement": "when engine->connect returns an error the call returns it at once: mutex released, nothing registered, counted or enqueued, no session id"},
+    {"id": "C04_tls", "theorem": "Iora.C04.T_tls_mode_as_requested", "kind": "proved",
+     "statement": "argument layer, every schedule: the session an attempt works on (and returns ok for) was created with the TLS mode this call requested"},
     {"id": "C04_T6_ok", "theorem": "Iora.C04.T6_wrapper_ok", "kind": "proved",
      "statement": "connectSyncCancellable returns ok sid only if its last sub-attempt returned ok sid, never for a sub-attempt it abandoned"},
     {"id": "C04_T6_cancel", "theorem": "Iora.C04.T6_cancelled_only_if_cancelled", "kind": "proved",
@@ -44,6 +58,8 @@ OBLIGATIONS = [
      "statement": "entered with a cancelled token it returns Cancelled without touching the engine"},
 ]
 
+REASON = {1: "Connect", 2: "Resolve", 3: "Timeout", 4: "TLSHandshake", 5: "Unknown", 6: "PeerClosed"}
+
 
 # ------------------------------------------------------------------ single-threaded cases
 def gen_seq_case(rng):
@@ -51,22 +67,27 @@ def gen_seq_case(rng):
     nsid = 0
     n = rng.range(2, 14)
     caller = 0
+    refusing = False
     for _ in range(n):
         k = rng.below(100)
         if k < 45:
             win = rng.choice(["n", "n", "c", "c", "f", "p"])
-            ops.append("connect %d %d %s" % (caller, rng.choice([0, 0, 1, 2]), win))
+            ops.append("connect %d %d %s %d" % (caller, rng.choice([0, 0, 1, 2, 30]), win, rng.below(3)))
             caller += 1
-            nsid += 1
-        elif k < 70:
+            if not refusing:
+                nsid += 1
+        elif k < 68:
             ops.append("pop %d" % rng.choice([1, 1, 1, 0]))
-        elif k < 80 and nsid:
+        elif k < 78 and nsid:
             ops.append("complete %d" % rng.range(1, nsid))
-        elif k < 87 and nsid:
-            ops.append("fail %d" % rng.range(1, nsid))
-        elif k < 94 and nsid:
+        elif k < 85 and nsid:
+            ops.append("fail %d %d" % (rng.range(1, nsid), rng.range(1, 4)))
+        elif k < 91 and nsid:
             ops.append("peerclose %d" % rng.range(1, nsid))
-        elif k < 96 and rng.chance(1, 3):
+        elif k < 95:
+            refusing = not refusing          # engine->connect refuses (TcpEngine::connect on a closed queue, e.g. after a plain stop())
+            ops.append("refuse %d" % (1 if refusing else 0))
+        elif k < 97 and rng.chance(1, 3):
             ops.append("fence")
     for _ in range(2 * nsid + 2):          # let the engine drain its queue
         ops.append("pop 1")
@@ -79,6 +100,7 @@ def seq_monitor(c, impl):
     result = {}          # caller -> result string
     closes = set()
     fence = False
+    refusing = False
     for op, l in zip(c["ops"], impl):
         if l.startswith("crash:") or l.startswith("throw"):
             bad.append("X: connectSync layer crashes/throws: %s -> %s" % (op, l[:80]))
@@ -89,10 +111,18 @@ def seq_monitor(c, impl):
         for tok in head.split():
             evs += [e for e in tok.split(";") if e != "-"]
         cur_created = None
+        if t[0] == "refuse":
+            refusing = t[1] == "1"
         for e in evs:
+            if e.startswith("elapsed-exceeded"):
+                bad.append("T5/in-time: connectSync returned later than its timeout + 1.5 s (%s) for `%s`" % (e, op))
             if e.startswith("created:"):
                 cur_created = int(e.split(":")[1])
                 created_by[cur_created] = int(t[1]) if t[0] == "connect" else -1
+                if t[0] == "connect" and e.split("tls=")[1] != t[4]:
+                    bad.append("H2/TLS: connectSync was asked for TLS mode %s but called engine->connect with mode %s (`%s`)" % (t[4], e.split("tls=")[1], op))
+                if refusing:
+                    bad.append("M3: a session was created although engine->connect refused")
             elif e.startswith("engineClose:"):
                 closes.add(int(e.split(":")[1]))
             elif e.startswith("ret:"):
@@ -112,9 +142,11 @@ def seq_monitor(c, impl):
                 _, cid, r = e.split(":", 2)
                 if r.startswith("ok:"):
                     bad.append("T1: single-threaded connectSync returned success although nothing can complete while it waits")
+                if t[0] == "connect" and refusing and r != "err:ShuttingDown":
+                    bad.append("M3: engine->connect refused (ShuttingDown) but connectSync returned %s" % r)
                 if r == "err:Timeout" and (cur_created is None or cur_created not in closes):
                     bad.append("T3: connectSync returned Timeout without issuing engine->close for its session")
-                if fence and r != "err:ShuttingDown":
+                if fence and not refusing and r != "err:ShuttingDown":
                     bad.append("T5: a connectSync entered after the teardown fence returned %s" % r)
                 if fence and cur_created is not None:
                     bad.append("T5: a connectSync entered after the teardown fence still called engine->connect")
@@ -125,16 +157,19 @@ def seq_monitor(c, impl):
 
 # ------------------------------------------------------------------ DetSched programs
 def gen_sched_case(rng, big):
-    ncall = rng.choice([1, 1, 2, 2, 3, 4]) if not big else rng.choice([5, 8])
-    kind = rng.choice(["plain", "plain", "late", "mixed", "wrapped", "fence", "cancel"])
+    ncall = rng.choice([1, 1, 1, 2, 2, 3, 4]) if not big else rng.choice([5, 8])
+    kind = rng.choice(["plain", "plain", "late", "mixed", "wrapped", "fence", "cancel", "refuse", "reasons"])
     threads = []
+    has_wrapped = False
     for i in range(ncall):
         ops = []
         for _ in range(rng.choice([1, 1, 2]) if not big else 1):
+            tls = rng.choice([0, 0, 1, 2])
             if kind in ("wrapped", "cancel") or (kind == "mixed" and rng.chance(1, 3)):
-                ops.append("w:%d" % rng.choice([50, 120, 250, 350]))
+                ops.append("w:%d:%d" % (rng.choice([50, 120, 250, 350]), tls))
+                has_wrapped = True
             else:
-                ops.append("k:%d" % rng.choice([0, 30, 60, 200]))
+                ops.append("k:%d:%d" % (rng.choice([0, 30, 60, 200]), tls))
         threads.append(ops)
     if kind == "cancel" or (kind in ("wrapped", "mixed") and rng.chance(1, 3)):
         x = []
@@ -146,7 +181,13 @@ def gen_sched_case(rng, big):
         threads.append(x)
     if kind == "fence" or rng.chance(1, 20):
         threads.append(["y"] * rng.range(0, 4) + ["f"])
-    letters = {"plain": "oooofrnp", "late": "llllon", "mixed": "ofrnlp", "wrapped": "onnnrlp", "fence": "onnl", "cancel": "nnnol"}[kind]
+    if kind == "refuse":
+        threads.append(["y"] * rng.range(0, 3) + ["R"])       # engine->connect starts refusing (queue closed by a plain stop())
+    # policy letters: o ok, f/u fail at pop (refused/unresolved), r/t/s fail later (refused / engine-side connect timeout / TLS failure),
+    # n never, l late (completes once the caller's Close is queued), p ok then peer close. `t` only without wrapped callers: the
+    # cancellable wrapper treats an engine-reported Timeout like a sub-attempt timeout and retries (not modelled)
+    letters = {"plain": "oooofrnp", "late": "llllon", "mixed": "ofrnlpus", "wrapped": "onnnrlpu", "fence": "onnl", "cancel": "nnnol",
+               "refuse": "oonp", "reasons": "furs" + ("" if has_wrapped else "tt")}[kind]
     policy = "".join(rng.choice(letters) for _ in range(rng.range(1, 6)))
     return {"cat": "sched-" + kind, "seed": rng.below(2 ** 31), "timeoutOneIn": rng.choice([0, 0, 0, 4, 8, 16]), "spuriousOneIn": rng.choice([0, 0, 5]),
             "policy": policy, "threads": threads}
@@ -173,43 +214,80 @@ def parse_sched(line):
         f = lhs.split(",")
         steps.append({"tid": int(f[0]), "step": " ".join(f[1:]), "obs": obs})
     tail = parts[3] if len(parts) > 3 else ""
-    info = dict(kv.split("=") for kv in tail.split() if "=" in kv)
+    info = dict(kv.split("=", 1) for kv in tail.split() if "=" in kv)
+    times = []
+    for t in info.get("times", "-").split(","):
+        f = t.split(":", 5)
+        if len(f) == 6:
+            times.append({"caller": int(f[0]), "wrapped": f[1] == "1", "timeout_ms": int(f[2]), "elapsed_us": int(f[3]), "start_us": int(f[4]), "ret": f[5]})
+    cancels = []
+    for t in info.get("cancels", "").split(","):
+        f = t.split(":")
+        if len(f) == 2:
+            cancels.append((int(f[0]), int(f[1])))
     return {"status": status.split()[0] if status else "?", "steps": steps, "choices": parts[2].strip() if len(parts) > 2 else "",
             "open": [int(x) for x in info.get("open", "-").split(",") if x not in ("-", "")], "q": int(info.get("q", "0") or 0),
-            "report": parts[4] if len(parts) > 4 else ""}
+            "times": times, "cancels": cancels, "final": parts[4].strip() if len(parts) > 4 else "-", "report": parts[5] if len(parts) > 5 else ""}
+
+
+SLACK_US = 5000           # virtual-time slack: every look at the clock costs 1 us under DetSched
+SUB_US = 100000           # the cancellable wrapper's sub-interval
 
 
 def sched_monitor(c, res):
+    """Returns (violations, findings). findings = occurrences of the recorded finding FC04a (ordering of the global close callback)."""
     bad = []
+    finding = []
     if res is None:
-        return ["X: the harness produced no trace"]
+        return ["X: the harness produced no trace"], []
     if res["status"] != "ok":
         if res["status"] == "diverged" and "choices" in c:
-            return []
-        return ["T5: not every connectSync returns under this schedule (%s): %s" % (res["status"], res["report"][:300])]
+            return [], []
+        if res["status"] == "steplimit":
+            return [], []          # DetSched's step budget ran out (starvation-style schedule): machinery, counted in the distribution
+        return ["T5: not every connectSync returns under this schedule (%s): %s" % (res["status"], res["report"][:300])], []
     created_by = {}       # sid -> (caller, call index)
+    created_tls = {}
     calls = {}            # caller -> list of dict(wrapped, sids, ret)
     completed = set()
     closes = set()
     cancelled = set()
+    reason = {}           # sid -> reason the engine reported with onClose
+    returned_ok = set()   # sids already handed to a caller
     fence = False
+    refusing_seen = False
     for st in res["steps"]:
         f = st["step"].split()
         if f[0] == "call":
-            calls.setdefault(int(f[1]), []).append({"wrapped": f[2] == "1", "sids": [], "ret": None, "after_fence": fence,
-                                                    "cancelled_before": int(f[1]) in cancelled})
+            calls.setdefault(int(f[1]), []).append({"wrapped": f[2] == "1", "tls": f[3], "sids": [], "ret": None, "after_fence": fence,
+                                                    "cancelled_before": int(f[1]) in cancelled, "refused": False})
         elif f[0] == "cancel":
             cancelled.add(int(f[1]))
         elif f[0] == "fence":
             fence = True
         elif f[0] == "ioComplete":
             completed.add(int(f[1]))
+        elif f[0] in ("ioFail", "ioPeerClose"):
+            reason.setdefault(int(f[1]), int(f[2]))
+        elif f[0] == "ioPop" and f[1] == "0":
+            for e in st["obs"].split(";"):
+                if e.startswith("cmd:connect:"):
+                    reason.setdefault(int(e.split(":")[2]), int(f[2]))
+        elif f[0] == "cRefuse":
+            calls[int(f[1])][-1]["refused"] = True
+            refusing_seen = True
+            if calls[int(f[1])][-1]["sids"] and not calls[int(f[1])][-1]["wrapped"]:
+                bad.append("M3: engine->connect refused after this call had already created a session")
         for e in st["obs"].split(";"):
             if e.startswith("created:"):
                 sid = int(e.split(":")[1])
                 cid = int(f[1])
                 calls[cid][-1]["sids"].append(sid)
                 created_by[sid] = (cid, len(calls[cid]) - 1)
+                created_tls[sid] = e.split("tls=")[1]
+                if created_tls[sid] != calls[cid][-1]["tls"]:
+                    bad.append("H2/TLS: caller %d asked for TLS mode %s but engine->connect was called with mode %s (session %d)"
+                               % (cid, calls[cid][-1]["tls"], created_tls[sid], sid))
                 if calls[cid][-1]["after_fence"]:
                     bad.append("T5: a connectSync entered after the teardown fence still called engine->connect (session %d)" % sid)
             elif e.startswith("engineClose:"):
@@ -218,31 +296,60 @@ def sched_monitor(c, res):
                 sid = int(e.split(":")[1])
                 if sid in created_by:
                     bad.append("T2: the global connect callback fired for session %d, which a connectSync created" % sid)
+            elif e.startswith("gclose:"):
+                sid = int(e.split(":")[1])
+                if sid in created_by and sid not in returned_ok:
+                    finding.append(sid)        # decided below: finding FC04a only if the creating call does return ok sid later
             elif e.startswith("ret:"):
                 _, cid, r = e.split(":", 2)
                 cid = int(cid)
                 call = calls[cid][-1]
                 call["ret"] = r
+                last = call["sids"][-1] if call["sids"] else None
                 if r.startswith("ok:"):
                     sid = int(r[3:])
-                    if not call["sids"] or call["sids"][-1] != sid:
-                        bad.append("T1/T6: caller %d got ok:%d but the last session its call created is %s" % (cid, sid, call["sids"][-1:] or None))
+                    returned_ok.add(sid)
+                    if last != sid:
+                        bad.append("T1/T6: caller %d got ok:%d but the last session its call created is %s" % (cid, sid, last))
                     if sid not in completed:
                         bad.append("T1: caller %d got ok:%d before that session's connect completed" % (cid, sid))
                     if sid in closes:
                         bad.append("T1: caller %d got ok:%d although the transport itself had issued engine->close(%d)" % (cid, sid, sid))
-                elif r == "err:Timeout":
-                    if not call["sids"] or any(s not in closes for s in call["sids"]):
-                        bad.append("T3: caller %d got Timeout but engine->close was not issued for every session its call created (%s)" % (cid, call["sids"]))
+                    if call["refused"] and not call["wrapped"]:
+                        bad.append("M3: engine->connect refused but connectSync returned ok")
                 elif r == "err:Cancelled":
                     if cid not in cancelled:
                         bad.append("T6: caller %d got Cancelled although its token was never cancelled" % cid)
                     if not call["wrapped"]:
                         bad.append("T6: a plain connectSync returned Cancelled")
+                elif call["refused"]:
+                    if r != "err:ShuttingDown":
+                        bad.append("M3: engine->connect refused with ShuttingDown but caller %d got %s" % (cid, r))
+                elif r == "err:Timeout":
+                    # connectSync's own timeout exit closes its session; an engine-reported Timeout (onClose reason) is passed through
+                    if not call["sids"]:
+                        if not call["wrapped"]:
+                            bad.append("T3: caller %d got Timeout without having created a session" % cid)
+                    else:
+                        for s_ in call["sids"]:
+                            if s_ not in closes and reason.get(s_) is None and not fence:
+                                bad.append("T3: caller %d got Timeout but session %d of this call was neither closed by connectSync nor "
+                                           "closed by the engine" % (cid, s_))
+                        if last not in closes and reason.get(last) not in (None, 3):
+                            bad.append("L8: caller %d got Timeout but the engine closed session %d with reason %s" % (cid, last, REASON.get(reason.get(last))))
+                elif r.startswith("err:") and r != "err:ShuttingDown":
+                    # a failed connect: the error must be the one the engine reported for THIS call's current session
+                    want = REASON.get(reason.get(last)) if last is not None else None
+                    if want is None or r != "err:" + want:
+                        bad.append("L8: caller %d got %s but the engine reported %s for session %s of this call" % (cid, r, want, last))
+                elif r == "err:ShuttingDown":
+                    if not fence and not call["after_fence"]:
+                        bad.append("T5: caller %d got ShuttingDown although neither the fence was set nor engine->connect refused" % cid)
                 if call["after_fence"] and r != "err:ShuttingDown" and not (call["wrapped"] and call["cancelled_before"] and r == "err:Cancelled"):
                     bad.append("T5: a connectSync entered after the teardown fence returned %s" % r)
                 if call["wrapped"] and call["cancelled_before"] and r != "err:Cancelled":
                     bad.append("T6: connectSyncCancellable entered with a cancelled token returned %s" % r)
+    fc04a = []
     for st in res["steps"]:
         for e in st["obs"].split(";"):
             if e.startswith("gclose:"):
@@ -252,6 +359,8 @@ def sched_monitor(c, res):
                     if calls[cid][k]["ret"] != "ok:%d" % sid:
                         bad.append("T2: the global close callback fired for session %d although the connectSync that created it returned %s "
                                    "(the id was never handed to the caller)" % (sid, calls[cid][k]["ret"]))
+                    elif sid in finding:
+                        fc04a.append("FC04a: the global close callback for session %d ran before connectSync returned ok:%d to caller %d" % (sid, sid, cid))
     for sid in res["open"]:
         if sid in closes:
             bad.append("T3: session %d is still open in the engine after the run although connectSync issued engine->close for it" % sid)
@@ -263,7 +372,28 @@ def sched_monitor(c, res):
         for call in lst:
             if call["ret"] is None:
                 bad.append("T5: a call of caller %d never returned" % cid)
-    return bad
+    # in time, in DetSched virtual time: only programs with ONE calling thread (another caller's timed wait moves the shared clock)
+    ncallers = sum(1 for t in c["threads"] if any(o[0] in "kw" for o in t))
+    if ncallers == 1:
+        for t in res["times"]:
+            lim = t["timeout_ms"] * 1000 + SLACK_US + (SUB_US if t["wrapped"] else 0)
+            if t["elapsed_us"] > lim:
+                bad.append("H1/in-time: caller %d asked for %d ms (%s) and returned %s after %d us of virtual time (> %d us)"
+                           % (t["caller"], t["timeout_ms"], "cancellable" if t["wrapped"] else "plain", t["ret"], t["elapsed_us"], lim))
+            if t["wrapped"]:
+                # a cancel is honoured within one sub-interval, whatever the call then returns (it may still complete or time out first)
+                cs = [v for (cc, v) in res["cancels"] if cc == t["caller"] and v <= t["start_us"] + t["elapsed_us"]]
+                if cs:
+                    lat = t["start_us"] + t["elapsed_us"] - max(min(cs), t["start_us"])
+                    if lat > SUB_US + SLACK_US:
+                        bad.append("H1/cancel latency: caller %d's token was cancelled but connectSyncCancellable returned (%s) %d us of virtual "
+                                   "time later (> sub-interval 100 ms + slack)" % (t["caller"], t["ret"], lat))
+            if t["ret"] == "err:Timeout" and not t["wrapped"] and t["elapsed_us"] + SLACK_US < t["timeout_ms"] * 1000:
+                sids = [s_ for s_, (cc, _) in created_by.items() if cc == t["caller"]]
+                if not any(reason.get(s_) == 3 for s_ in sids):
+                    bad.append("H1/in-time: caller %d got Timeout after only %d us of virtual time although it asked for %d ms"
+                               % (t["caller"], t["elapsed_us"], t["timeout_ms"]))
+    return bad, fc04a
 
 
 def run_sched(ctx, hb, cases, dist):
@@ -288,11 +418,13 @@ def run_sched(ctx, hb, cases, dist):
         if res:
             for st in res["steps"]:
                 model_lines.append("st " + st["step"])
+        model_lines.append("state")
         spans.append((a, len(model_lines)))
     mout, mrc, merr = ctx.run_lines(ctx.model_argv("connectsync"), model_lines, timeout=1200)
     if mrc != 0 or len(mout) != len(model_lines):
         raise RuntimeError("model driver failed on schedule replay rc=%s lines=%d/%d %s" % (mrc, len(mout), len(model_lines), merr[-300:]))
     n_mis = 0
+    found = []
     for c, l, res, (a, b) in zip(cases, outs, parsed, spans):
         dist[c["cat"]] = dist.get(c["cat"], 0) + 1
         ctx.cov["traces_validated_against_impl"] += 1
@@ -304,8 +436,13 @@ def run_sched(ctx, hb, cases, dist):
         if res:
             dist["sched-status:" + res["status"]] = dist.get("sched-status:" + res["status"], 0) + 1
             nsw = sum(1 for x, y in zip(res["steps"], res["steps"][1:]) if x["tid"] != y["tid"])
-            dist["callers:%d" % sum(1 for t in c["threads"] if any(o[0] in "kw" for o in t))] = dist.get("callers:%d" % sum(1 for t in c["threads"] if any(o[0] in "kw" for o in t)), 0) + 1
+            ncall = sum(1 for t in c["threads"] if any(o[0] in "kw" for o in t))
+            dist["callers:%d" % ncall] = dist.get("callers:%d" % ncall, 0) + 1
+            if ncall == 1:
+                dist["in-time-monitored-calls"] = dist.get("in-time-monitored-calls", 0) + len(res["times"])
             for st in res["steps"]:
+                if st["step"].startswith("cRefuse"):
+                    dist["step:cRefuse"] = dist.get("step:cRefuse", 0) + 1
                 for e in st["obs"].split(";"):
                     if e.startswith("ret:"):
                         r = e.split(":", 2)[2]
@@ -313,30 +450,77 @@ def run_sched(ctx, hb, cases, dist):
                         dist["ret:" + r] = dist.get("ret:" + r, 0) + 1
                     elif e.startswith("gclose") or e.startswith("gconnect"):
                         dist[e.split(":")[0]] = dist.get(e.split(":")[0], 0) + 1
+                    elif e.startswith("created:"):
+                        dist["tls=" + e.split("tls=")[1]] = dist.get("tls=" + e.split("tls=")[1], 0) + 1
         ctx.count_case(sched_line(c) + "|" + (res["choices"] if res else ""), nontrivial=nsw >= 2)
         if len(ctx.cov["samples"]) < 6 and ctx.rng.chance(1, 60) and res:
             ctx.sample({"cat": c["cat"], "line": sched_line(c)[:300], "steps": ["%d:%s=>%s" % (s["tid"], s["step"], s["obs"]) for s in res["steps"][:16]]})
-        fails = sched_monitor(c, res)
+        fails, fc04a = sched_monitor(c, res)
+        replay_line = sched_line(c, choices=[int(x) for x in res["choices"].split(",")]) if res and res["choices"] else sched_line(c)
+        if fc04a:
+            dist["finding-FC04a"] = dist.get("finding-FC04a", 0) + 1
+            found.append((replay_line, fc04a[0], l))
         if fails:
-            replay_line = sched_line(c, choices=[int(x) for x in res["choices"].split(",")]) if res and res["choices"] else sched_line(c)
             ctx.violation("property", fails[0], {"ops": [replay_line], "observed": [l[:4000]], "failures": fails[:5], "category": c["cat"],
                                                  "note": "replay: feed the op line to the harness; the schedule is the recorded DetSched choice list"},
                           found_input=True)
             continue
-        if not res:
+        if not res or res["status"] != "ok":
             continue
-        for st, ml in zip(res["steps"], mout[a + 1:b]):
+        mism = None
+        for st, ml in zip(res["steps"], mout[a + 1:b - 1]):
             if ml != st["obs"]:
-                n_mis += 1
-                if n_mis <= 3:
-                    ctx.violation("correspondence", "acceptor: the model cannot explain the recorded trace of the real class (no property monitor fails): "
-                                  "step `%s` observed `%s`, model `%s`" % (st["step"], st["obs"][:100], ml[:100]),
-                                  {"broken": {"correspondence": "connectsync trace inclusion (harness/c04_connectsync.cpp under DetSched vs Model/ConnectSync.lean)",
-                                              "detail": "step %s" % st["step"]},
-                                   "ops": [sched_line(c, choices=[int(x) for x in res["choices"].split(",")])],
-                                   "observed": ["%d:%s=>%s" % (s["tid"], s["step"], s["obs"]) for s in res["steps"]],
-                                   "expected_by_model": mout[a + 1:b]}, found_input=False)
+                mism = "step `%s` observed `%s`, model `%s`" % (st["step"], st["obs"][:100], ml[:100])
                 break
+        if mism is None and mout[b - 1] != res["final"]:
+            mism = "final state of the real Transport `%s`, model `%s`" % (res["final"], mout[b - 1])
+        if mism:
+            n_mis += 1
+            if n_mis <= 3:
+                ctx.violation("correspondence", "acceptor: the model cannot explain the recorded trace of the real class (no property monitor fails): " + mism,
+                              {"broken": {"correspondence": "connectsync trace inclusion (harness/c04_connectsync.cpp under DetSched vs Model/ConnectSync.lean)",
+                                          "detail": mism},
+                               "ops": [replay_line],
+                               "observed": ["%d:%s=>%s" % (s["tid"], s["step"], s["obs"]) for s in res["steps"]] + [res["final"]],
+                               "expected_by_model": mout[a + 1:b]}, found_input=False)
+    return found
+
+
+def known_keys():
+    keys = {d.get("key") for d in load_known_findings() if d.get("kind") == "finding" and d.get("property") == ID}
+    extra = os.environ.get("VERIF_KNOWN_FINDINGS_EXTRA")      # for trying out a proposed line; KNOWN_FINDINGS.txt itself is never written
+    if extra and os.path.exists(extra):
+        for l in open(extra):
+            if l.startswith("finding:") and "property=%s" % ID in l:
+                for tok in l.split():
+                    if tok.startswith("key="):
+                        keys.add(tok[4:])
+    return keys
+
+
+FC04A_PROGRAM = {"cat": "sched-fc04a", "timeoutOneIn": 0, "spuriousOneIn": 0, "policy": "p", "threads": [["k:400:0"]]}
+
+
+def finding_fc04a(ctx, hb, found, dist):
+    """OBSERVATION FC04a (Props: T2_ordered_refuted), NOT a finding against C04: the global close callback can run for a
+    connectSync-created session before connectSync has returned that id (the peer closes between onConnect and the caller's wake-up).
+    C04 as stated forbids the global callbacks for a session the call does NOT hand to its caller, and allows a returned session that
+    the PEER has already closed; here the id IS handed out, only later than the callback. The stricter ordering statement is refuted
+    in Lean and the witness is replayed to keep model and code tied, but it is recorded in the evidence, never reported."""
+    if not found:
+        cases = []
+        for i in range(400):
+            cc = dict(FC04A_PROGRAM)
+            cc["seed"] = 1000 + i
+            cases.append(cc)
+        found = run_sched(ctx, hb, cases, dist)
+    if not found:
+        ctx.notes.append("observation FC04a (global close callback before connectSync returns the id) did not reproduce on the real class in "
+                         "400 schedules of its witness program; the model still proves it reachable (T2_ordered_refuted)")
+        ctx.extra["observation_FC04a"] = {"reproduced": False}
+        return
+    line, msg, obs = found[0]
+    ctx.extra["observation_FC04a"] = {"reproduced": True, "what": msg, "ops": [line], "observed": [obs[:2000]]}
 
 
 def run(ctx: Ctx):
@@ -348,7 +532,7 @@ def run(ctx: Ctx):
     if ok_build:
         ctx.audit(MODULES, OBLIGATIONS)
         if not quick:
-            ctx.leanchecker(MODULES + ["IoraModel.Lemmas.ConnectSync", "IoraModel.Lemmas.ConnectSyncBase", "IoraModel.Lemmas.ConnectSyncA", "IoraModel.Lemmas.ConnectSyncB", "IoraModel.Lemmas.ConnectSyncC", "IoraModel.Lemmas.ConnectSyncD", "IoraModel.Lemmas.ConnectSyncE", "IoraModel.Lemmas.ConnectSyncF", "IoraModel.Model.ConnectSync", "IoraModel.Model.TsyncFacts", "IoraModel.Gen.TsyncSkel"])
+            ctx.leanchecker(MODULES + ["IoraModel.Lemmas.ConnectSync", "IoraModel.Lemmas.ConnectSyncBase", "IoraModel.Lemmas.ConnectSyncA", "IoraModel.Lemmas.ConnectSyncB", "IoraModel.Lemmas.ConnectSyncC", "IoraModel.Lemmas.ConnectSyncD", "IoraModel.Lemmas.ConnectSyncE", "IoraModel.Lemmas.ConnectSyncF", "IoraModel.Lemmas.ConnectSyncR", "IoraModel.Lemmas.ConnectSyncG0", "IoraModel.Lemmas.ConnectSyncG", "IoraModel.Model.ConnectSync", "IoraModel.Model.ConnectSyncX", "IoraModel.Model.TsyncFacts", "IoraModel.Gen.TsyncSkel"])
     else:
         ctx.cov["obligations"] = len(OBLIGATIONS)
     hb = ctx.build_harness("harness/c04_connectsync.cpp", sanitize=True, flags=[DETSCHED])
@@ -381,19 +565,32 @@ def run(ctx: Ctx):
                                    "ops": c["ops"], "observed": impl, "expected_by_model": model}, found_input=False)
         r2 = rng.fork("sched")
         scases = [c for c in corpus if c.get("cat") == "sched"] + [gen_sched_case(r2, big=(i % 25 == 24)) for i in range(500 * scale)]
-        run_sched(ctx, hb, scases, dist)
+        found = run_sched(ctx, hb, scases, dist)
+        finding_fc04a(ctx, hb, found, dist)
     ctx.extra["input_distribution"] = dist
     ctx.extra["repo_tree_sha"] = ctx.repo_tree_sha(ANCHOR_FILES)
     ctx.extra["not_proved"] = [
-        "'no later than timeout + bounded slack' is a statement about real time: PARTIAL - the model proves a bound on the caller's own steps "
-        "after its timeout choice (T5_step_bound); the wall-clock slack is not proved",
+        "'no later than timeout + bounded slack' is a statement about real time: PARTIAL. Proved: a bound on the caller's own steps after its "
+        "timeout choice (T5_step_bound, T5_lock_released). TIED, not proved: that the wait lasts the caller's timeout - skeleton facts "
+        "(wait_for(lk, timeout, pred), the wrapper's subInterval = 100 ms, deadline = now + timeout, subTimeout = min(remaining, subInterval); "
+        "skeleton_conforms), a DetSched virtual-time monitor on programs with one calling thread (elapsed <= timeout + 5 ms; cancellable: "
+        "+ one sub-interval; a cancel is honoured within one sub-interval; no early Timeout) and a real-time monitor on the sequential "
+        "connect op (elapsed <= timeout + 1.5 s). The wall-clock slack of a loaded machine is not proved",
+        "OBSERVATION FC04a — the stricter ordering statement is refuted (not claimed by C04, which allows returning a session the peer has already closed): 'the global close callback fires for a connectSync-created session only after connectSync "
+        "returned its id' (T2_ordered_refuted; what holds is T2_global_close_only_for_handed_out: the creating call returns nothing but ok sid)",
+        "the cancellable wrapper retries a sub-attempt that ended with an engine-reported Timeout (onClose reason Timeout) exactly like its own "
+        "sub-interval time-out; the model has no separate step for this: engine-reported Timeout is generated only for plain callers",
+        "the TLS mode / host / port are carried by an argument layer over the control model (Model/ConnectSyncX.lean, T_tls_mode_as_requested); "
+        "what TcpEngine then does with the mode is C07's subject",
         "the real TcpEngine (DNS, TCP/TLS handshake, RST, black-holed peers) is represented by the abstract FIFO engine of the EngineBase contract; "
         "its conformance to that contract (every id returned by connect() gets exactly one onClose, Connect processed before Close) is C02's subject",
         "UDP connectSync (returns engine->connect directly, no suppression) is not modelled",
+        "schedules whose DetSched step budget runs out (status steplimit) are counted in input_distribution, not judged",
     ]
     ctx.assumptions += [
         "engine contract (detail/engine_base.hpp): connect()/close() only enqueue; commands are processed FIFO; onConnect at most once per id and never after onClose",
         "timeouts are scheduler choices (DetSched virtual time / model step `cWake c true`)",
+        "engine->connect may refuse (model step cRefuse): the scripted engine refuses with ShuttingDown, the code TcpEngine::connect returns on a closed command queue",
     ]
     return ctx.finish(level="proof", rule="a case = one op list from reset over the scripted FIFO engine (single-threaded lockstep) or one DetSched schedule of a "
                       "2-10 thread program (trace inclusion); distinct = distinct op list / (program, choice list); non-trivial = at least one session was "
